@@ -789,3 +789,226 @@ Section MoreFacts.
 End MoreFacts.
 
 Definition mod_code_of (c : cmd) : N := match c_mod c with MPdr => 0 | MFar => 1 | MAppQer => 2 | MSessQer => 3 end.
+
+(* ------------------------------------------------------------------ C03: the image invariant, step by step *)
+(* "exactly the image": every command of the image is present with its value, and no other key is present *)
+Definition is_image (t : tables) (cs : list cmd) : Prop :=
+  (forall c, In c cs -> t_get (c_key c) (tab (c_mod c) t) = Some (c_val c)) /\
+  (forall m k, (forall c, In c cs -> hits m k c = false) -> t_get k (tab m t) = None).
+
+Definition session_cmds (burst : N -> N -> N -> N) (s : session) : list cmd :=
+  add_cmds burst (view (s_pdrs s)) (view (s_fars s)) (view (s_qers s)).
+Definition image (burst : N -> N -> N -> N) (ss : list session) : list cmd := flat_map (session_cmds burst) ss.
+
+(* the envelope: no two commands of the image address the same (module, key) - distinct PDRs have distinct
+   match keys, FAR / QER ids are distinct inside a session, F-SEIDs are distinct across sessions *)
+Definition disjoint_from (xs ys : list cmd) : Prop := forall a b, In a xs -> In b ys -> hits (c_mod a) (c_key a) b = false.
+
+Lemma hits_self c : hits (c_mod c) (c_key c) c = true.
+Proof. unfold hits. rewrite key_eqb_refl. destruct (c_mod c); reflexivity. Qed.
+Lemma module_eqb_eq a b : module_eqb a b = true <-> a = b.
+Proof. destruct a, b; cbn; split; intros H; try reflexivity; try discriminate. Qed.
+Lemma hits_sym a b : hits (c_mod a) (c_key a) b = hits (c_mod b) (c_key b) a.
+Proof.
+  unfold hits. destruct (module_eqb (c_mod a) (c_mod b)) eqn:E.
+  - apply module_eqb_eq in E. rewrite E. rewrite (proj2 (module_eqb_eq _ _) eq_refl). cbn. apply key_eqb_sym.
+  - destruct (module_eqb (c_mod b) (c_mod a)) eqn:E2; [|reflexivity].
+    apply module_eqb_eq in E2. rewrite E2 in E. rewrite (proj2 (module_eqb_eq _ _) eq_refl) in E. discriminate.
+Qed.
+Lemma hits_same_target m k c d : c_mod c = c_mod d -> c_key c = c_key d -> hits m k c = hits m k d.
+Proof. intros A B. unfold hits. rewrite A, B. reflexivity. Qed.
+
+(* adding a batch whose keys are pairwise distinct and disjoint from the image extends the image by the batch *)
+Lemma image_add t old new :
+  is_image t old -> distinct_keys new -> (forall x, In x new -> c_add x = true) -> disjoint_from new old ->
+  is_image (apply_cmds new t) (new ++ old).
+Proof.
+  intros [I1 I2] Hd Ha Hx. split.
+  - intros c Hc. apply in_app_or in Hc. destruct Hc as [Hc|Hc].
+    + apply adds_install; assumption.
+    + rewrite apply_cmds_untouched; [apply I1; exact Hc|].
+      intros n Hn. rewrite hits_sym. apply Hx; assumption.
+  - intros m k Hk. rewrite apply_cmds_untouched.
+    + apply I2. intros c Hc. apply Hk. apply in_or_app; right; exact Hc.
+    + intros c Hc. apply Hk. apply in_or_app; left; exact Hc.
+Qed.
+
+(* deleting the keys of one part of the image leaves exactly the rest *)
+Definition same_targets (ds cs : list cmd) : Prop :=
+  (forall d, In d ds -> exists c, In c cs /\ c_mod c = c_mod d /\ c_key c = c_key d) /\
+  (forall c, In c cs -> exists d, In d ds /\ c_mod c = c_mod d /\ c_key c = c_key d).
+
+Lemma image_del t gone rest dels :
+  is_image t (gone ++ rest) -> same_targets dels gone -> (forall x, In x dels -> c_add x = false) -> disjoint_from gone rest ->
+  is_image (apply_cmds dels t) rest.
+Proof.
+  intros [I1 I2] [T1 T2] Hd Hx. split.
+  - intros c Hc. rewrite apply_cmds_untouched; [apply I1; apply in_or_app; right; exact Hc|].
+    intros d Hdd. destruct (T1 d Hdd) as (g & Hg & Gm & Gk).
+    rewrite <- (hits_same_target _ _ g d Gm Gk). rewrite hits_sym. apply Hx; assumption.
+  - intros m k Hk.
+    destruct (existsb (hits m k) gone) eqn:E.
+    + apply existsb_exists in E. destruct E as (g & Hg & Hh). destruct (T2 g Hg) as (d & Hdd & Gm & Gk).
+      unfold hits in Hh. apply andb_true_iff in Hh. destruct Hh as [Hm Hkk]. apply module_eqb_eq in Hm. apply key_eqb_eq in Hkk.
+      subst m k. rewrite Gm, Gk. apply deletes_remove; assumption.
+    + apply deletes_keep_absent; [exact Hd|]. apply I2. intros c Hc. apply in_app_or in Hc. destruct Hc as [Hc|Hc].
+      * destruct (hits m k c) eqn:Eh; [|reflexivity]. exfalso.
+        assert (existsb (hits m k) gone = true) as A by (apply existsb_exists; exists c; split; assumption).
+        rewrite A in E. discriminate.
+      * apply Hk; exact Hc.
+Qed.
+
+Lemma is_image_ext t cs cs' : is_image t cs -> (forall c, In c cs <-> In c cs') -> is_image t cs'.
+Proof.
+  intros [I1 I2] H. split.
+  - intros c Hc. apply I1. apply H; exact Hc.
+  - intros m k Hk. apply I2. intros c Hc. apply Hk. apply H; exact Hc.
+Qed.
+
+(* delete commands of a session address exactly the keys of its add commands *)
+Section SameTargets.
+  Variable burst : N -> N -> N -> N.
+  Lemma qer_add_shape q : exists v1 v2,
+    qer_add burst q = if q_level q =? 0
+                      then [Cmd MAppQer true [ACCESS; q_id q; q_fseid q] v1; Cmd MAppQer true [CORE; q_id q; q_fseid q] v2]
+                      else [Cmd MSessQer true [ACCESS; q_fseid q] v1; Cmd MSessQer true [CORE; q_fseid q] v2].
+  Proof.
+    unfold qer_add, qer_dir. destruct (q_level q =? 0);
+      repeat match goal with |- context [if ?x then _ else _] => destruct x end; eexists; eexists; reflexivity.
+  Qed.
+
+  Lemma same_targets_session s :
+    same_targets (del_cmds (view (s_pdrs s)) (view (s_fars s)) (view (s_qers s))) (session_cmds burst s).
+  Proof.
+    unfold session_cmds, del_cmds, add_cmds. split.
+    - intros d Hd. repeat (apply in_app_or in Hd; destruct Hd as [Hd|Hd]).
+      + apply in_flat_map in Hd. destruct Hd as (p & Hp & Hd). unfold pdr_del in Hd. apply in_map_iff in Hd. destruct Hd as (r & <- & Hr).
+        exists (Cmd MPdr true (pdr_key p r) (pdr_val p)). split; [|split; reflexivity].
+        apply in_or_app; left. apply in_flat_map. exists p. split; [exact Hp|]. unfold pdr_add. apply in_map_iff. exists r. split; [reflexivity|exact Hr].
+      + apply in_flat_map in Hd. destruct Hd as (f & Hf & Hd). destruct Hd as [<-|[]].
+        eexists. split; [apply in_or_app; right; apply in_or_app; left; apply in_flat_map; exists f; split; [exact Hf|left; reflexivity]|split; reflexivity].
+      + apply in_flat_map in Hd. destruct Hd as (q & Hq & Hd).
+        destruct (qer_add_shape q) as (v1 & v2 & Hs).
+        assert (exists c, In c (qer_add burst q) /\ c_mod c = c_mod d /\ c_key c = c_key d) as (c & Hc & A & B).
+        { rewrite Hs. unfold qer_del in Hd. destruct (q_level q =? 0); destruct Hd as [<-|[<-|[]]];
+            first [ (eexists; split; [left; reflexivity|split; reflexivity])
+                  | (eexists; split; [right; left; reflexivity|split; reflexivity]) ]. }
+        exists c. split; [|split; assumption]. apply in_or_app; right. apply in_or_app; right. apply in_flat_map. exists q. split; assumption.
+    - intros c Hc. repeat (apply in_app_or in Hc; destruct Hc as [Hc|Hc]).
+      + apply in_flat_map in Hc. destruct Hc as (p & Hp & Hc). unfold pdr_add in Hc. apply in_map_iff in Hc. destruct Hc as (r & <- & Hr).
+        exists (Cmd MPdr false (pdr_key p r) []). split; [|split; reflexivity].
+        apply in_or_app; left. apply in_flat_map. exists p. split; [exact Hp|]. unfold pdr_del. apply in_map_iff. exists r. split; [reflexivity|exact Hr].
+      + apply in_flat_map in Hc. destruct Hc as (f & Hf & Hc). destruct Hc as [<-|[]].
+        eexists. split; [apply in_or_app; right; apply in_or_app; left; apply in_flat_map; exists f; split; [exact Hf|left; reflexivity]|split; reflexivity].
+      + apply in_flat_map in Hc. destruct Hc as (q & Hq & Hc).
+        destruct (qer_add_shape q) as (v1 & v2 & Hs). rewrite Hs in Hc.
+        assert (exists d, In d (qer_del q) /\ c_mod c = c_mod d /\ c_key c = c_key d) as (d & Hd & A & B).
+        { unfold qer_del. destruct (q_level q =? 0); destruct Hc as [<-|[<-|[]]];
+            first [ (eexists; split; [left; reflexivity|split; reflexivity])
+                  | (eexists; split; [right; left; reflexivity|split; reflexivity]) ]. }
+        exists d. split; [|split; assumption]. apply in_or_app; right. apply in_or_app; right. apply in_flat_map. exists q. split; assumption.
+  Qed.
+
+  Lemma add_cmds_are_adds ps fs qs c : In c (add_cmds burst ps fs qs) -> c_add c = true.
+  Proof.
+    unfold add_cmds. intros H. repeat (apply in_app_or in H; destruct H as [H|H]).
+    - apply in_flat_map in H. destruct H as (p & _ & H). unfold pdr_add in H. apply in_map_iff in H. destruct H as (r & <- & _). reflexivity.
+    - apply in_flat_map in H. destruct H as (f & _ & H). destruct H as [<-|[]]. reflexivity.
+    - apply in_flat_map in H. destruct H as (q & _ & H). destruct (qer_add_shape q) as (v1 & v2 & Hs). rewrite Hs in H.
+      destruct (q_level q =? 0); destruct H as [<-|[<-|[]]]; reflexivity.
+  Qed.
+End SameTargets.
+
+(* ---- membership facts about the session list *)
+Lemma del_session_absent l ss : ~ In l (map s_lseid ss) -> del_session l ss = ss.
+Proof.
+  induction ss as [|s ss IH]; intros H; [reflexivity|]. cbn [del_session].
+  destruct (s_lseid s =? l) eqn:E.
+  - exfalso. apply H. left. apply N.eqb_eq. exact E.
+  - rewrite IH; [reflexivity|]. intros Hin. apply H. right. exact Hin.
+Qed.
+Lemma in_del_session l ss x : In x (del_session l ss) <-> In x ss /\ s_lseid x <> l.
+Proof.
+  induction ss as [|s ss IH]; cbn [del_session In]; [tauto|].
+  destruct (s_lseid s =? l) eqn:E.
+  - rewrite IH. apply N.eqb_eq in E. split; [tauto|]. intros [[<-|H] Hn]; [contradiction|tauto].
+  - cbn [In]. rewrite IH. apply N.eqb_neq in E. split; [intros [<-|H]; tauto|tauto].
+Qed.
+Lemma find_session_in l ss s : find_session l ss = Some s -> In s ss.
+Proof.
+  induction ss as [|x ss IH]; [discriminate|]. cbn [find_session].
+  destruct (s_lseid x =? l); [intros H; inversion H; left; reflexivity|intros H; right; apply IH; exact H].
+Qed.
+Lemma nodup_lseid_unique ss a b : NoDup (map s_lseid ss) -> In a ss -> In b ss -> s_lseid a = s_lseid b -> a = b.
+Proof.
+  induction ss as [|x ss IH]; intros Hn Ha Hb He; [destruct Ha|].
+  inversion Hn as [|? ? Hnin Hn']; subst. destruct Ha as [<-|Ha], Hb as [<-|Hb]; auto.
+  - exfalso. apply Hnin. rewrite He. apply in_map. exact Hb.
+  - exfalso. apply Hnin. rewrite <- He. apply in_map. exact Ha.
+Qed.
+
+Section ImageSteps.
+  Variable burst : N -> N -> N -> N.
+
+  Lemma in_image x ss : In x (image burst ss) <-> exists s, In s ss /\ In x (session_cmds burst s).
+  Proof. unfold image. apply in_flat_map. Qed.
+
+  Lemma est_accepted_store a c nid cpf pdrs fars qers draws a' c' rseid n l cr cmds ms sd s :
+    handle_est burst a c nid cpf pdrs fars qers draws = Done (a', c', Out (Some (REst rseid CAUSE_OK n (Some l) cr)) cmds ms sd) ->
+    find_session l (c_sessions c') = Some s ->
+    c_sessions c' = s :: c_sessions c /\ cmds = session_cmds burst s /\ a_tables a' = apply_cmds cmds (a_tables a).
+  Proof.
+    intros H Hf.
+    destruct (est_accepted burst _ _ _ _ _ _ _ _ _ _ _ _ _ _ _ _ _ H) as (l' & s' & Hup & Hnz & _ & Hnin & Hf' & _).
+    inversion Hup; subst l'. rewrite Hf in Hf'. inversion Hf'; subst s'.
+    edestruct (est_accepted_tables burst) as [Hc Ht]; [exact H|exact Hf|].
+    split; [|split; [exact Hc|exact Ht]].
+    unfold handle_est in H. split_all H; inversion H; subst; try discriminate.
+    all: try (unfold CAUSE_OK, CAUSE_REJ, CAUSE_NORES, CAUSE_NOASSOC, CAUSE_MISSING in *; congruence).
+    cbn [c_sessions] in *.
+    match type of Hf with find_session ?l (put_session ?x _) = _ =>
+      change l with (s_lseid x) in Hf; rewrite (find_put x _ Hnz) in Hf; inversion Hf; subst end.
+    unfold put_session. cbn [s_lseid] in *.
+    match goal with |- (if ?l =? 0 then _ else _) = _ => destruct (l =? 0) eqn:E0; [apply N.eqb_eq in E0; contradiction|] end.
+    rewrite del_session_absent by exact Hnin. reflexivity.
+  Qed.
+
+  (* accepted establishment: the image grows by exactly the new session's entries *)
+  Lemma est_image_step a c nid cpf pdrs fars qers draws a' c' rseid n l cr cmds ms sd s others :
+    handle_est burst a c nid cpf pdrs fars qers draws = Done (a', c', Out (Some (REst rseid CAUSE_OK n (Some l) cr)) cmds ms sd) ->
+    find_session l (c_sessions c') = Some s ->
+    is_image (a_tables a) (image burst (c_sessions c ++ others)) ->
+    distinct_keys (session_cmds burst s) -> disjoint_from (session_cmds burst s) (image burst (c_sessions c ++ others)) ->
+    is_image (a_tables a') (image burst (c_sessions c' ++ others)).
+  Proof.
+    intros H Hf Hi Hd Hx. edestruct est_accepted_store as (Hs & Hc & Ht); [exact H|exact Hf|].
+    rewrite Hs, Ht, Hc. cbn [app image flat_map]. fold (image burst (c_sessions c ++ others)).
+    apply image_add; try assumption. intros x Hxx. eapply add_cmds_are_adds. exact Hxx.
+  Qed.
+
+  (* the ending of a session: the image shrinks by exactly its entries *)
+  Lemma end_session_image_step a s a' cmds ss others :
+    end_session a s = (a', cmds) -> In s ss -> NoDup (map s_lseid ss) ->
+    is_image (a_tables a) (image burst (ss ++ others)) ->
+    disjoint_from (session_cmds burst s) (image burst (del_session (s_lseid s) ss ++ others)) ->
+    is_image (a_tables a') (image burst (del_session (s_lseid s) ss ++ others)).
+  Proof.
+    intros He Hin Hn Hi Hx. unfold end_session in He.
+    destruct (release_ips (a_pool a) (s_lseid s) (view (s_pdrs s))) as [pl ok]. inversion He; subst; clear He. cbn [a_tables].
+    apply image_del with (gone := session_cmds burst s).
+    - eapply is_image_ext; [exact Hi|]. intros x. rewrite in_app_iff, !in_image. split.
+      + intros (y & Hy & Hxy). apply in_app_or in Hy. destruct Hy as [Hy|Hy].
+        * destruct (N.eq_dec (s_lseid y) (s_lseid s)) as [E|E].
+          -- left. rewrite <- (nodup_lseid_unique ss y s Hn Hy Hin E). exact Hxy.
+          -- right. exists y. split; [apply in_or_app; left; apply in_del_session; split; assumption|exact Hxy].
+        * right. exists y. split; [apply in_or_app; right; exact Hy|exact Hxy].
+      + intros [Hs|(y & Hy & Hxy)].
+        * exists s. split; [apply in_or_app; left; exact Hin|exact Hs].
+        * exists y. split; [|exact Hxy]. apply in_app_or in Hy. destruct Hy as [Hy|Hy]; apply in_or_app.
+          -- left. apply in_del_session in Hy. tauto.
+          -- right. exact Hy.
+    - apply same_targets_session.
+    - intros x. apply del_cmds_are_deletes.
+    - exact Hx.
+  Qed.
+End ImageSteps.
